@@ -7,26 +7,120 @@ VERUS_UNITS = {
     "vleaf": {"name": "vleaf", "template": "contracts/verus/fw.tmpl", "defines": ["LEAF"]},
 }
 
-# harness -> crate, default tag for untagged failed checks, tier, properties served, bounded?
+FW = "crates/maybenot/src/framework.rs"
+ST = "crates/maybenot/src/state.rs"
+DI = "crates/maybenot/src/dist.rs"
+AC = "crates/maybenot/src/action.rs"
+CO = "crates/maybenot/src/counter.rs"
+MA = "crates/maybenot/src/machine.rs"
+FFI = "crates/maybenot-ffi/src/lib.rs"
+FFI2 = "crates/maybenot-ffi/src/ffi.rs"
+
+
+def H(crate, mod, name, fn, file, tier="quick", bounded=None, variants=None, cex=None, default_tag="C01.safety_leaf"):
+    full = "%s::%s" % (mod, name) if mod else name
+    d = {"crate": crate, "default_tag": default_tag, "tier": tier, "bounded": bounded, "fn": fn, "file": file,
+         "variants": variants or [full]}
+    if cex:
+        d["cex"] = cex
+    return d
+
+
+FP = "framework::verif_proofs"
+SP = "state::verif_proofs"
+DP = "dist::verif_proofs"
+
 KANI_HARNESSES = {
-    "k_pad": {"crate": "maybenot", "default_tag": "C01.safety_leaf", "tier": "quick",
-              "variants": ["framework::verif_proofs::k_pad", "framework::verif_proofs::k_pad_cvc5"],
-              "props": ["C02", "C07"], "bounded": None, "cex": "framework::verif_proofs::k_pad_cex",
-              "fn": "Framework::below_limit_padding", "file": "crates/maybenot/src/framework.rs"},
-    "k_blk": {"crate": "maybenot", "default_tag": "C01.safety_leaf", "tier": "quick",
-              "variants": ["framework::verif_proofs::k_blk", "framework::verif_proofs::k_blk_kissat"],
-              "props": ["C03", "C07"], "bounded": None, "cex": "framework::verif_proofs::k_blk_cex",
-              "fn": "Framework::below_limit_blocking", "file": "crates/maybenot/src/framework.rs"},
+    "k_pad": H("maybenot", FP, "k_pad", "Framework::below_limit_padding", FW,
+               variants=[FP + "::k_pad", FP + "::k_pad_cvc5"], cex=FP + "::k_pad_cex"),
+    "k_blk": H("maybenot", FP, "k_blk", "Framework::below_limit_blocking", FW,
+               variants=[FP + "::k_blk", FP + "::k_blk_kissat"], cex=FP + "::k_blk_cex"),
+    "k_new_fracs": H("maybenot", FP, "k_new_fracs", "Framework::new (fraction test, zero machines)", FW,
+                     default_tag="C12.new"),
+    "k_event_index": H("maybenot", SP, "k_event_index", "Event::to_usize", "crates/maybenot/src/event.rs",
+                       default_tag="C06.ev_idx"),
+    "k_sample_1": H("maybenot", SP, "k_sample_1", "State::sample_state", ST, bounded="list length k = 1",
+                    default_tag="C06.safety"),
+    "k_sample_2": H("maybenot", SP, "k_sample_2", "State::sample_state", ST, bounded="list length k = 2",
+                    default_tag="C06.safety"),
+    "k_sample_3": H("maybenot", SP, "k_sample_3", "State::sample_state", ST, tier="thorough",
+                    bounded="list length k = 3", default_tag="C06.safety"),
+    "k_sample_none": H("maybenot", SP, "k_sample_none", "State::sample_state", ST, default_tag="C06.safety"),
+    "k_valid_state_1": H("maybenot", SP, "k_valid_state_1", "State::validate", ST,
+                         bounded="one event slot with 1 transition; targets from {0,1,5,STATE_END,STATE_SIGNAL}; probability and num_states fully symbolic",
+                         default_tag="C12.safety"),
+    "k_valid_state_2": H("maybenot", SP, "k_valid_state_2", "State::validate", ST, tier="thorough",
+                         bounded="one event slot with 2 transitions; targets from a 5-element set", default_tag="C12.safety"),
+    "k_valid_machine": H("maybenot", "machine::verif_proofs", "k_valid_machine", "Machine::validate", MA,
+                         bounded=None, default_tag="C12.safety"),
+    "k_dist_sample": H("maybenot", DP, "k_dist_sample", "Dist::sample", DI, default_tag="C13.safety",
+                       cex=DP + "::k_dist_sample_cex"),
+    "k_clamp_timeout": H("maybenot", "action::verif_proofs", "k_clamp_timeout", "Action::sample_timeout", AC,
+                         default_tag="C13.safety"),
+    "k_clamp_duration": H("maybenot", "action::verif_proofs", "k_clamp_duration", "Action::sample_duration", AC,
+                          default_tag="C13.safety"),
+    "k_clamp_limit": H("maybenot", "action::verif_proofs", "k_clamp_limit", "Action::sample_limit", AC,
+                       default_tag="C13.safety"),
+    "k_counter_value": H("maybenot", "counter::verif_proofs", "k_counter_value", "Counter::sample_value", CO,
+                         default_tag="C13.safety"),
+    "k_ffi_convert_action": H("maybenot-ffi", "verif_proofs", "k_ffi_convert_action", "convert_action", FFI,
+                              default_tag="C20.safety"),
+    "k_ffi_convert_event": H("maybenot-ffi", "verif_proofs", "k_ffi_convert_event", "convert_event", FFI,
+                             default_tag="C20.safety"),
+    "k_ffi_null_args": H("maybenot-ffi", "ffi::verif_proofs", "k_ffi_null_args",
+                         "maybenot_on_events / maybenot_num_machines / maybenot_start (null arguments)", FFI2,
+                         default_tag="C20.safety"),
 }
+# not decidable with Kani 0.68 and therefore not claimed: geometric (constructor loop over the symbolic
+# probability exceeds any small unwinding bound), gamma and beta (constructors reach inline asm)
+# poisson: Poisson::new did not terminate under CBMC within 15 minutes
+FAMILIES = ["uniform", "normal", "skewnormal", "lognormal", "binomial", "pareto", "weibull"]
+for fam in FAMILIES:
+    KANI_HARNESSES["k_valid_dist_" + fam] = H(
+        "maybenot", DP, "k_valid_dist_" + fam, "Dist::validate (%s)" % fam, DI,
+        tier="thorough" if fam in ("geometric",) else "quick",
+        bounded="Geometric::new squaring loop unwound 70 times (unwinding assertion on)" if fam == "geometric" else None,
+        default_tag="C12.safety")
+VALID_DIST = ["k_valid_dist_" + f for f in FAMILIES]
+
+TB_COMMON = [
+    "time-trait axioms (Duration::ax_duration, Instant::t): every implementor of maybenot::time is assumed to satisfy them",
+    "std semantics of Vec / slices / Option as specified by vstd; <[T]>::fill; AsRef::as_ref is pure",
+    "derived Clone / PartialEq impls are structural (extraction rule R1)",
+    "packet counters stay below 2^64 (>= 2^64 reported events needed to violate)",
+    "accumulated blocked time representable in T::Duration (dur_headroom) - explicit hypothesis, see DESIGN F5",
+    "CBMC's IEEE-754 model; Kani's models of std intrinsics",
+    "iterator tail of trigger_events (iter().filter_map(as_ref)) dropped by rule R3: yields the Some entries of `actions` in index order",
+]
 
 PROPS = {
-    "C01": {"verus": ["vfw", "vleaf"], "kani": [], "untagged": True,
-            "title": "Framework is total"},
-    "C02": {"verus": ["vfw"], "kani": ["k_pad"], "title": "Padding budgets"},
-    "C03": {"verus": ["vfw"], "kani": ["k_blk"], "title": "Blocking budgets"},
-    "C04": {"verus": ["vfw"], "kani": [], "title": "Output contract"},
-    "C07": {"verus": ["vfw", "vleaf"], "kani": ["k_pad", "k_blk"], "title": "Per-state limits"},
-    "C08": {"verus": ["vfw"], "kani": [], "title": "Counters"},
-    "C09": {"verus": ["vfw"], "kani": [], "title": "Signals"},
-    "C10": {"verus": ["vfw"], "kani": [], "title": "Non-interference"},
+    "C01": {"verus": ["vfw", "vleaf"], "kani": ["k_new_fracs"], "untagged": True, "title": "Framework is total",
+            "explanation": "Verus proves, generically in the machine container M, the RNG R and the clock T, that trigger_events / process_event / transition / update_counter / schedule_action / decrement_limit / below_action_limits and the bodies of below_limit_padding / below_limit_blocking never index out of bounds, never overflow an integer, never unwrap None, that recursion and all loops terminate (decreases on the per-machine CounterZero guards), that an event naming a non-existent machine touches no machine [C01.ids] and that one machine step makes at most 1 + (guards consumed) <= 3 deliveries [C01.steps]. Not machine-checked: Framework::new's machine loop (iter_mut().zip()), the summation of the per-step work bound over a batch. Explicit hypotheses: packet counters < 2^64; dur_headroom (F5)."},
+    "C02": {"verus": ["vfw"], "kani": ["k_pad"], "title": "Padding budgets",
+            "explanation": "K-PAD: Kani function contract on the real below_limit_padding, all u64 counters, all fractions in [0,1], bit-precise IEEE-754: true => state limit > 0 and (budget left or both fractions below, zero packets counting as below). V-FW: below_action_limits / transition carry the predicate: a slot that changes to SendPadding satisfies pad_budget_ok on the accounting of that moment [C02.prov]; machine steps never write the accounting [C02.acct]; process_event counts NormalSent / PaddingSent (any id) before the machines run. The composition over a whole single-event call (slots cleared at call start + the above) is argued in DESIGN.md, not machine-checked."},
+    "C03": {"verus": ["vfw"], "kani": ["k_blk"], "title": "Blocking budgets",
+            "explanation": "K-BLK: Kani function contract on the real below_limit_blocking over a virtual clock (u64 microseconds) whose division is abstracted to an arbitrary function (Ackermann encoding), so the result holds for every clock with a deterministic div_duration_f64. V-FW (generic in T): accounting step of BlockingBegin / BlockingEnd with saturating time differences [C03.acct], provenance of BlockOutgoing slots [C03.prov]."},
+    "C04": {"verus": ["vfw"], "kani": ["k_clamp_timeout", "k_clamp_duration"], "title": "Output contract",
+            "explanation": "Slot invariant for every reachable framework state: slot i is None or an action naming machine i with kind / flags / timer of the action declared in some state of machine i and every duration <= 86 400 000 000 us [C04.slot][C04.shape]; transition is the identity on ended machines [C04.end]; the clamps of sample_timeout / sample_duration are proved by Kani for every f64 the distribution could return [C04.clamp]. 'At most one action per machine, distinct machines' is the slot invariant plus the dropped iterator tail (assumed)."},
+    "C06": {"verus": [], "kani": ["k_event_index", "k_sample_none", "k_sample_1", "k_sample_2", "k_sample_3"],
+            "title": "Transition probabilities",
+            "explanation": "sample_state, executed through the real rand 0.8 gen_range(0.0..1.0), equals the cumulative-threshold specification for every 32-bit RNG word and every validated probability vector; BOUNDED in the list length (k = 1, 2 quick; 3 thorough). The counting step from thresholds to shares (within 2^-23) is done on paper in DESIGN.md."},
+    "C07": {"verus": ["vfw", "vleaf"], "kani": ["k_pad", "k_blk", "k_clamp_limit"], "title": "Per-state limits",
+            "explanation": "limit > 0 is a conjunct of every limited action's predicate (V-LEAF on the real bodies generic in T, K-PAD / K-BLK bit-precise) and scheduling is preceded by a true predicate [C07.pos]; a transition that reports Unchanged keeps state and limit [C07.once]; decrement_limit saturates at 0 and raises LimitReached exactly when the decremented limit is 0 and the state's action carries a limit, after withdrawing the slot [C07.reach]. Not machine-checked at call level: that only the named machine's limit is consumed (visible in process_event's guards `mi == machine.into_raw()`, but the log-based clause [C07.own] did not verify within the resource limit)."},
+    "C08": {"verus": ["vfw"], "kani": ["k_counter_value"], "title": "Counters",
+            "explanation": "update_counter's arithmetic equals counter_apply (saturating at 0 and u64::MAX, copy uses the other counter's pre-transition value, unit value 1) [C08.apply]; CounterZero is delivered exactly when a counter of this machine went non-zero -> zero and its per-machine guard was unset [C08.exact][C08.once]; nothing is scheduled or delivered before that [C08.prec]."},
+    "C09": {"verus": ["vfw"], "kani": [], "title": "Signals",
+            "explanation": "Signaller abstraction {none, one(x), many}: every machine step changes it only by sig_join written from the statement (a machine signalling again stays the only signaller) [C09.join]. The delivery round of trigger_events (each live machine other than the lone signaller exactly once) is NOT machine-checked; see DESIGN.md."},
+    "C10": {"verus": ["vfw"], "kani": [], "title": "Non-interference",
+            "explanation": "Write frame: a step of machine i leaves every other machine's runtime and slot untouched [C10.frame], writes no framework-level state other than rng, signal_pending (sanctioned) [C10.shared], and delivers events only to machine i [C10.local]. The relational solo-vs-combined lemma is not attempted."},
+    "C12": {"verus": [], "kani": ["k_valid_machine", "k_new_fracs"] + VALID_DIST,
+            "title": "Validation soundness",
+            "explanation": "Kani on the real validate functions: accepted fractions are real numbers in [0,1] [C12.fracs]; accepted distributions have parameters the sampler's constructor accepts plus the explicit speed bounds, for 7 of the 11 families (uniform, normal, skewnormal, lognormal, binomial, pareto, weibull) [C12.dist]; NOT decided: State::validate's transition checks (the harnesses k_valid_state_* exist but CBMC does not finish on the real HashSet code within 15 minutes), and the poisson / geometric / gamma / beta constructors (loops over symbolic floats, inline asm); Framework::new accepts exactly fractions in [0,1] [C12.new]. from_str / Machine::new calling validate is by inspection (two lines), not machine-checked."},
+    "C13": {"verus": [], "kani": ["k_dist_sample", "k_clamp_timeout", "k_clamp_duration", "k_clamp_limit",
+                                  "k_counter_value"], "title": "Sampling in range",
+            "explanation": "Dist::sample with the underlying rand_distr sampler over-approximated by 'returns any f64': the result is not NaN, >= 0, <= max when max > 0, and finite, for all 11 families and all start/max including NaN and infinities; the consumers' conversions never panic and clamp to one day. NOT decided: that the rand_distr samplers return promptly (probabilistic termination) - an explicit assumption."},
+    "C20": {"verus": [], "kani": ["k_ffi_convert_action", "k_ffi_convert_event", "k_ffi_null_args"], "title": "C API",
+            "explanation": "convert_action is field-exact for every TriggerAction value (kind, machine, flags, timer, seconds, nanoseconds) and convert_event for all 10 event types and any id (loop-free, full domain); null `this`, null `out` are reported through NullPointer / 0 without dereference. The zip with the output slice (count <= num_machines) and start/stop ownership are std semantics, assumed."},
 }
+for p in PROPS.values():
+    p.setdefault("trusted", TB_COMMON)
